@@ -178,6 +178,40 @@ std::string fn_extra(const std::string& id, const tensor_size_t dims, const tens
             put(synthetic_scalar_t{summands, 1, n});
         }
     }
+    else if (id == "maxquad")
+    {
+        // function_maxquad_t(dims, kdims = 5): the members are private; the two fill() of maxquad.cpp:7-43 are repeated here
+        // (a changed formula in the source shows up as a disagreement with the model)
+        const tensor_size_t kdims = 5;
+        auto                Aks   = tensor3d_t{kdims, dims, dims};
+        auto                bks   = tensor2d_t{kdims, dims};
+        for (tensor_size_t k = 0; k < kdims; ++k)
+        {
+            auto       A  = Aks.tensor(k);
+            auto       b  = bks.tensor(k);
+            const auto sk = static_cast<scalar_t>(k + 1);
+            for (tensor_size_t i = 0; i < dims; ++i)
+            {
+                const auto si = static_cast<scalar_t>(i + 1);
+                for (tensor_size_t j = i + 1; j < dims; ++j)
+                {
+                    const auto sj = static_cast<scalar_t>(j + 1);
+                    A(i, j) = A(j, i) = std::exp(si / sj) * std::cos(si * sj) * sin(sk);
+                }
+                auto sum = 0.0;
+                for (tensor_size_t j = 0; j < dims; ++j)
+                {
+                    if (i != j)
+                    {
+                        sum += std::fabs(A(i, j));
+                    }
+                }
+                A(i, i) = si * std::fabs(std::sin(sk)) / static_cast<scalar_t>(dims) + sum;
+                b(i)    = std::exp(si / sk) * std::sin(si * sk);
+            }
+        }
+        out << kdims << dims << flist_str(Aks.data(), Aks.size()) << flist_str(bks.data(), bks.size());
+    }
     else if (id == "geometric-optimization")
     {
         const auto a = make_random_vector<scalar_t>(summands, -1.0, +1.0, seed_t{42});
